@@ -84,14 +84,30 @@ def _grid_crosses(chk, cls, module, d, j, sample, attrs_of):
         chk.cross(Cross(f"{cls}.{meth}", [p], sample, scenario, rtol=1e-7))
 
 
-def c_grid(chk):
-    fn = "grid.Grid"
-    pre = GRID_INV + CUBE
-    d, j = _maps(chk, "grid", "Grid", make_grid, pre)
+def grid_crosses(chk, d, j):
     _grid_crosses(chk, "Grid", "grid", d, j,
                   lambda rnd: {"chi": rnd.uniform(-0.95, 0.95), "rz": rnd.uniform(-0.95, 0.95), "rp": rnd.uniform(-1, 0.95),
                                "positionFalloff": rnd.uniform(0.1, 10), "momentumFalloffT": rnd.uniform(0.1, 10)},
                   lambda env: {"positionFalloff": env["positionFalloff"], "momentumFalloffT": env["momentumFalloffT"]})
+
+
+def grid3_crosses(chk, d, j):
+    def sample3(rnd):
+        L_, r_, s_ = rnd.uniform(0.1, 5), rnd.uniform(0.2, 0.8), rnd.uniform(0.05, 0.4)
+        tmin = L_ * (0.5 + s_) / r_
+        return {"chi": rnd.uniform(-0.9, 0.9), "rz": rnd.uniform(-0.9, 0.9), "rp": rnd.uniform(-1, 0.9), "wallThickness": L_, "ratioPointsWall": r_,
+                "smoothing": s_, "tailLengthInside": tmin * rnd.uniform(1.2, 3), "tailLengthOutside": tmin * rnd.uniform(1.2, 3),
+                "wallCenter": rnd.uniform(-1, 1), "momentumFalloffT": rnd.uniform(0.5, 2), "aIn": rnd.uniform(0.05, 0.5), "aOut": rnd.uniform(0.05, 0.5)}
+    _grid_crosses(chk, "Grid3Scales", "grid3Scales", d, j, sample3,
+                  lambda env: {k: env[k] for k in ("wallThickness", "ratioPointsWall", "smoothing", "tailLengthInside", "tailLengthOutside",
+                                                   "wallCenter", "momentumFalloffT", "aIn", "aOut")})
+
+
+def c_grid(chk):
+    fn = "grid.Grid"
+    pre = GRID_INV + CUBE
+    d, j = _maps(chk, "grid", "Grid", make_grid, pre)
+    grid_crosses(chk, d, j)
     for k, (name, var) in enumerate((("z", chi), ("pz", rz), ("pp", rp))):
         chk.vc(f"Grid.jacobian-is-derivative.{name}", d.pc + j.pc, Eq(j.value[k], deriv(d.value[k], var)),
                func=f"{fn}.compactificationDerivatives", kind="lemma")
@@ -165,15 +181,7 @@ def c_grid3_maps(chk):
     pre = G3_INV + CUBE + [Gt(real("aIn"), 0), Gt(real("aOut"), 0)]
     d, j = _maps(chk, "grid3Scales", "Grid3Scales", make_grid3, pre)
 
-    def sample3(rnd):
-        L_, r_, s_ = rnd.uniform(0.1, 5), rnd.uniform(0.2, 0.8), rnd.uniform(0.05, 0.4)
-        tmin = L_ * (0.5 + s_) / r_
-        return {"chi": rnd.uniform(-0.9, 0.9), "rz": rnd.uniform(-0.9, 0.9), "rp": rnd.uniform(-1, 0.9), "wallThickness": L_, "ratioPointsWall": r_,
-                "smoothing": s_, "tailLengthInside": tmin * rnd.uniform(1.2, 3), "tailLengthOutside": tmin * rnd.uniform(1.2, 3),
-                "wallCenter": rnd.uniform(-1, 1), "momentumFalloffT": rnd.uniform(0.5, 2), "aIn": rnd.uniform(0.05, 0.5), "aOut": rnd.uniform(0.05, 0.5)}
-    _grid_crosses(chk, "Grid3Scales", "grid3Scales", d, j, sample3,
-                  lambda env: {k: env[k] for k in ("wallThickness", "ratioPointsWall", "smoothing", "tailLengthInside", "tailLengthOutside",
-                                                   "wallCenter", "momentumFalloffT", "aIn", "aOut")})
+    grid3_crosses(chk, d, j)
     for k, (name, var) in enumerate((("z", chi), ("pz", rz), ("pp", rp))):
         chk.vc(f"Grid3Scales.jacobian-is-derivative.{name}", d.pc + j.pc, Eq(j.value[k], deriv(d.value[k], var)),
                func=f"{fn}.compactificationDerivatives", kind="lemma")
